@@ -225,7 +225,31 @@ class Check:
         (EVIDENCE_DIR / f"{self.pid}.json").write_text(json.dumps(ev, indent=1, default=repr))
 
 
+def _install_deadline(pid: str, tier: str) -> None:
+    """A check that cannot finish (e.g. the code under analysis makes a fixpoint diverge) is an ANALYSIS-ERROR."""
+    import signal
+
+    seconds = int(os.environ.get("JSTAT_DEADLINE", "900" if tier == "quick" else "5400"))
+
+    def on_alarm(_sig: int, _frm: Any) -> None:
+        print(f"ANALYSIS-ERROR property={pid} time budget of {seconds}s exhausted (the analysis does not converge on this tree)", flush=True)
+        try:
+            import multiprocessing
+
+            for ch in multiprocessing.active_children():
+                ch.terminate()
+        finally:
+            os._exit(2)
+
+    try:
+        signal.signal(signal.SIGALRM, on_alarm)
+        signal.alarm(seconds)
+    except (ValueError, AttributeError):  # not in the main thread / platform without SIGALRM
+        pass
+
+
 def run_check(pid: str, tier: str, fn: Callable[[Check], None], program_loader: Callable[[], Any]) -> int:
+    _install_deadline(pid, tier)
     try:
         program = program_loader()
         chk = Check(pid, tier, program)
